@@ -202,4 +202,23 @@ PROPS = {
         "assumptions": ["a reader may observe any version that was current at some instant between the call and return of read()",
                         "only the data a reader sees is judged here (which rcode a name without data gets is C08's business)"],
     },
+    "C13": {
+        "level": "exploration",
+        "features": ["crypto", "hooks"],
+        "stages": [
+            {"mode": "native", "cpu_budget": 120},
+            {"mode": "asan", "shards": 4, "scale": 0.2, "tiers": ["thorough"], "cpu_budget": 600},
+        ],
+        "offline": ["nsec3_ref.py"],
+        "rule": "an evaluation is one generated zone (6-label alphabet, depth <= 3: delegations with and without DS, in-zone glue, occluded data, nested cuts, "
+                "wildcards, CNAMEs, empty non-terminals shared by two branches, owner-case variants, glue sorting last, apex-only) put through SortedRecords and "
+                "(a) generate_nsecs, (b) generate_nsec3s with random salt (0..255 octets), iterations (0..50), opt-out on/off, unsigned-delegation exclusion "
+                "on/off, DNSKEY assumption on/off; the emitted records must equal, field by field, the chain computed by an independent model: owner set = "
+                "authoritative names (cuts included, glue/occluded excluded, ENTs only for NSEC3), canonical/hash order, next pointers closing the ring, "
+                "exact type bitmaps, parameters, TTL = min(SOA TTL, SOA MINIMUM); NSEC3 owner labels are decoded with the reference Base32hex decoder and "
+                "compared with an in-harness SHA-1 IH(), itself cross-checked against Python hashlib offline; absent names are probed for exactly one covering "
+                "NSEC; distinct = (chain kind, config flags, salt/iteration class, ENT count class, cut presence, owner count class)",
+        "assumptions": ["input records are an RRset-complete zone with the SOA at the apex, as SortedRecords presents them",
+                        "with opt-out and exclusion on, an unsigned delegation gets no NSEC3 and implies no empty non-terminal by itself (RFC 5155 7.1)"],
+    },
 }
